@@ -12,41 +12,258 @@ open Cx
 def ofList (l : List Nat) : Bytes := l.toArray
 
 theorem encode_length (r : Nat) : 1 ≤ (encode r).length ∧ (encode r).length ≤ 4 := by
-  sorry
+  unfold encode; repeat' split
+  all_goals simp
 
 theorem encode_bytes_lt (r : Nat) (hr : r ≤ maxRune) : ∀ b ∈ encode r, b < 256 := by
-  sorry
+  unfold maxRune at hr
+  unfold encode maxRune
+  intro b hb
+  repeat' split at hb
+  all_goals simp at hb
+  all_goals omega
 
-/-- C15: decoding the encoding of a scalar value returns it, with the encoding's length as width,
-    whatever follows it in the haystack -/
+theorem leadInfo_some {b sz lo hi : Nat} (h : leadInfo b = some (sz, lo, hi)) :
+    0xC2 ≤ b ∧ b ≤ 0xF4 ∧ 0x80 ≤ lo ∧ hi ≤ 0xBF ∧
+    ((sz = 2 ∧ b ≤ 0xDF) ∨
+     (sz = 3 ∧ 0xE0 ≤ b ∧ b ≤ 0xEF ∧ (b = 0xE0 → 0xA0 ≤ lo) ∧ (b = 0xED → hi ≤ 0x9F)) ∨
+     (sz = 4 ∧ 0xF0 ≤ b ∧ (b = 0xF0 → 0x90 ≤ lo) ∧ (b = 0xF4 → hi ≤ 0x8F))) := by
+  unfold leadInfo at h
+  repeat' split at h
+  all_goals simp at h
+  all_goals omega
+
+theorem leadInfo_two {b : Nat} (h1 : 0xC2 ≤ b) (h2 : b ≤ 0xDF) : leadInfo b = some (2, 0x80, 0xBF) := by
+  unfold leadInfo
+  rw [if_neg (by omega), if_pos (by omega)]
+
+theorem leadInfo_three {b : Nat} (h1 : 0xE0 ≤ b) (h2 : b ≤ 0xEF) :
+    ∃ lo hi, leadInfo b = some (3, lo, hi) ∧ (b ≠ 0xE0 → lo = 0x80) ∧ lo ≤ 0xA0 ∧
+      (b ≠ 0xED → hi = 0xBF) ∧ 0x9F ≤ hi := by
+  unfold leadInfo
+  repeat' split
+  all_goals first | omega | exact ⟨_, _, rfl, by omega, by omega, by omega, by omega⟩
+
+theorem leadInfo_four {b : Nat} (h1 : 0xF0 ≤ b) (h2 : b ≤ 0xF4) :
+    ∃ lo hi, leadInfo b = some (4, lo, hi) ∧ (b ≠ 0xF0 → lo = 0x80) ∧ lo ≤ 0x90 ∧
+      (b ≠ 0xF4 → hi = 0xBF) ∧ 0x8F ≤ hi := by
+  unfold leadInfo
+  repeat' split
+  all_goals first | omega | exact ⟨_, _, rfl, by omega, by omega, by omega, by omega⟩
+
+theorem decode1_fwd (h : Bytes) (n i : Nat) (hn : i + 1 ≤ n) (h0 : h.at i < 0x80) :
+    decodeAtEnd h n i = (h.at i, 1) := by
+  unfold decodeAtEnd
+  rw [if_neg (by omega)]
+  simp only []
+  rw [if_pos h0]
+
+theorem decode2_fwd (h : Bytes) (n i : Nat) (hn : i + 2 ≤ n)
+    (h0 : 0xC2 ≤ h.at i) (h0' : h.at i ≤ 0xDF) (h1 : 0x80 ≤ h.at (i+1)) (h1' : h.at (i+1) ≤ 0xBF) :
+    decodeAtEnd h n i = ((h.at i % 32) * 64 + (h.at (i+1) % 64), 2) := by
+  unfold decodeAtEnd
+  rw [if_neg (by omega)]
+  simp only []
+  rw [if_neg (by omega), leadInfo_two h0 h0']
+  simp only []
+  rw [if_neg (by omega), if_neg (by simp; omega)]
+  simp
+
+theorem decode3_fwd (h : Bytes) (n i : Nat) (hn : i + 3 ≤ n)
+    (h0 : 0xE0 ≤ h.at i) (h0' : h.at i ≤ 0xEF) (h1 : 0x80 ≤ h.at (i+1)) (h1' : h.at (i+1) ≤ 0xBF)
+    (hE0 : h.at i = 0xE0 → 0xA0 ≤ h.at (i+1)) (hED : h.at i = 0xED → h.at (i+1) ≤ 0x9F)
+    (h2 : 0x80 ≤ h.at (i+2)) (h2' : h.at (i+2) ≤ 0xBF) :
+    decodeAtEnd h n i = ((h.at i % 16) * 4096 + (h.at (i+1) % 64) * 64 + (h.at (i+2) % 64), 3) := by
+  obtain ⟨lo, hi, hli, hlo, hlo', hhi, hhi'⟩ := leadInfo_three h0 h0'
+  unfold decodeAtEnd
+  rw [if_neg (by omega)]
+  simp only []
+  rw [if_neg (by omega), hli]
+  simp only []
+  rw [if_neg (by omega), if_neg (by simp; omega), if_neg (by omega),
+    if_neg (by simp [isCont]; omega)]
+  simp
+
+theorem decode4_fwd (h : Bytes) (n i : Nat) (hn : i + 4 ≤ n)
+    (h0 : 0xF0 ≤ h.at i) (h0' : h.at i ≤ 0xF4) (h1 : 0x80 ≤ h.at (i+1)) (h1' : h.at (i+1) ≤ 0xBF)
+    (hF0 : h.at i = 0xF0 → 0x90 ≤ h.at (i+1)) (hF4 : h.at i = 0xF4 → h.at (i+1) ≤ 0x8F)
+    (h2 : 0x80 ≤ h.at (i+2)) (h2' : h.at (i+2) ≤ 0xBF)
+    (h3 : 0x80 ≤ h.at (i+3)) (h3' : h.at (i+3) ≤ 0xBF) :
+    decodeAtEnd h n i = ((h.at i % 8) * 262144 + (h.at (i+1) % 64) * 4096 + (h.at (i+2) % 64) * 64
+        + (h.at (i+3) % 64), 4) := by
+  obtain ⟨lo, hi, hli, hlo, hlo', hhi, hhi'⟩ := leadInfo_four h0 h0'
+  unfold decodeAtEnd
+  rw [if_neg (by omega)]
+  simp only []
+  rw [if_neg (by omega), hli]
+  simp only []
+  rw [if_neg (by omega), if_neg (by simp; omega), if_neg (by omega),
+    if_neg (by simp [isCont]; omega), if_neg (by omega), if_neg (by simp [isCont]; omega)]
+
+theorem at_ofList (l : List Nat) (k : Nat) : (ofList l).at k = l.getD k 0 := by
+  simp [ofList, Bytes.at]
+
+theorem size_ofList (l : List Nat) : (ofList l).size = l.length := by
+  simp [ofList]
+
 theorem decode_encode (r : Nat) (hs : isScalar r) (rest : List Nat) :
     decodeAt (ofList (encode r ++ rest)) 0 = (r, (encode r).length) := by
-  sorry
+  obtain ⟨hmax, hsur⟩ := hs
+  unfold maxRune at hmax
+  unfold decodeAt
+  by_cases c1 : r < 0x80
+  · have he : encode r = [r] := by unfold encode; rw [if_pos c1]
+    rw [he, decode1_fwd] <;> simp [at_ofList, size_ofList] <;> omega
+  · by_cases c2 : r < 0x800
+    · have he : encode r = [0xC0 + r / 64, 0x80 + r % 64] := by
+        unfold encode; rw [if_neg c1, if_pos c2]
+      rw [he, decode2_fwd] <;> simp [at_ofList, size_ofList] <;> omega
+    · have c3 : ¬ ((0xD800 ≤ r ∧ r ≤ 0xDFFF) ∨ r > maxRune) := by unfold maxRune; omega
+      by_cases c4 : r < 0x10000
+      · have he : encode r = [0xE0 + r / 4096, 0x80 + r / 64 % 64, 0x80 + r % 64] := by
+          unfold encode; rw [if_neg c1, if_neg c2, if_neg c3, if_pos c4]
+        rw [he, decode3_fwd] <;> simp [at_ofList, size_ofList] <;> omega
+      · have he : encode r = [0xF0 + r / 262144, 0x80 + r / 4096 % 64, 0x80 + r / 64 % 64, 0x80 + r % 64] := by
+          unfold encode; rw [if_neg c1, if_neg c2, if_neg c3, if_neg c4]
+        rw [he, decode4_fwd] <;> simp [at_ofList, size_ofList] <;> omega
+theorem decode_cases (h : Bytes) (n i : Nat) :
+    (n ≤ i ∧ decodeAtEnd h n i = (runeError, 0)) ∨
+    (i < n ∧ h.at i < 0x80 ∧ decodeAtEnd h n i = (h.at i, 1)) ∨
+    (i < n ∧ 0x80 ≤ h.at i ∧ decodeAtEnd h n i = (runeError, 1)) ∨
+    (i + 2 ≤ n ∧ 0xC2 ≤ h.at i ∧ h.at i ≤ 0xDF ∧ 0x80 ≤ h.at (i+1) ∧ h.at (i+1) ≤ 0xBF ∧
+      decodeAtEnd h n i = ((h.at i % 32) * 64 + (h.at (i+1) % 64), 2)) ∨
+    (i + 3 ≤ n ∧ 0xE0 ≤ h.at i ∧ h.at i ≤ 0xEF ∧ 0x80 ≤ h.at (i+1) ∧ h.at (i+1) ≤ 0xBF ∧
+      (h.at i = 0xE0 → 0xA0 ≤ h.at (i+1)) ∧ (h.at i = 0xED → h.at (i+1) ≤ 0x9F) ∧
+      0x80 ≤ h.at (i+2) ∧ h.at (i+2) ≤ 0xBF ∧
+      decodeAtEnd h n i = ((h.at i % 16) * 4096 + (h.at (i+1) % 64) * 64 + (h.at (i+2) % 64), 3)) ∨
+    (i + 4 ≤ n ∧ 0xF0 ≤ h.at i ∧ h.at i ≤ 0xF4 ∧ 0x80 ≤ h.at (i+1) ∧ h.at (i+1) ≤ 0xBF ∧
+      (h.at i = 0xF0 → 0x90 ≤ h.at (i+1)) ∧ (h.at i = 0xF4 → h.at (i+1) ≤ 0x8F) ∧
+      0x80 ≤ h.at (i+2) ∧ h.at (i+2) ≤ 0xBF ∧ 0x80 ≤ h.at (i+3) ∧ h.at (i+3) ≤ 0xBF ∧
+      decodeAtEnd h n i = ((h.at i % 8) * 262144 + (h.at (i+1) % 64) * 4096 + (h.at (i+2) % 64) * 64
+        + (h.at (i+3) % 64), 4)) := by
+  unfold decodeAtEnd
+  by_cases h0 : i ≥ n
+  · simp [h0]
+  · rw [if_neg h0]
+    simp only []
+    by_cases h1 : h.at i < 0x80
+    · simp [h1]; omega
+    · rw [if_neg h1]
+      cases hli : leadInfo (h.at i) with
+      | none => simp; omega
+      | some t =>
+        obtain ⟨sz, lo, hi⟩ := t
+        have hl := leadInfo_some hli
+        simp only []
+        by_cases h2 : n - i < sz
+        · simp [h2]; omega
+        · rw [if_neg h2]
+          by_cases h3 : (h.at (i+1) < lo || hi < h.at (i+1)) = true
+          · simp [h3]; omega
+          · rw [if_neg h3]
+            simp at h3
+            by_cases h4 : sz = 2
+            · simp [h4]; omega
+            · rw [if_neg h4]
+              by_cases h5 : (!isCont (h.at (i+2))) = true
+              · simp [h5]; omega
+              · rw [if_neg h5]
+                simp [isCont] at h5
+                by_cases h6 : sz = 3
+                · simp [h6]; omega
+                · rw [if_neg h6]
+                  by_cases h7 : (!isCont (h.at (i+3))) = true
+                  · simp [h7]; omega
+                  · rw [if_neg h7]
+                    simp [isCont] at h7
+                    simp; omega
 
 /-- distinct scalar values have distinct encodings -/
 theorem encode_injective (r s : Nat) (hr : isScalar r) (hs : isScalar s) (h : encode r = encode s) : r = s := by
-  sorry
+  have h1 := decode_encode r hr []
+  have h2 := decode_encode s hs []
+  rw [h, h2] at h1
+  exact (congrArg Prod.fst h1).symm
 
 /-- C04/C07: inside the input a decode step always advances by 1..4 bytes and never past the end -/
 theorem decode_progress (h : Bytes) (i : Nat) (hi : i < h.size) :
     1 ≤ (decodeAt h i).2 ∧ (decodeAt h i).2 ≤ 4 ∧ i + (decodeAt h i).2 ≤ h.size := by
-  sorry
+  unfold decodeAt
+  rcases decode_cases h h.size i with ⟨a, e⟩ | ⟨a, b, e⟩ | ⟨a, b, e⟩ | ⟨a, b, b', c, c', e⟩ | ⟨a, b, b', c, c', hE0, hED, d, d', e⟩ |
+    ⟨a, b, b', c, c', hF0, hF4, d, d', f, f', e⟩
+  all_goals rw [e]
+  all_goals simp only []
+  all_goals omega
 
 theorem decode_at_end (h : Bytes) (i : Nat) (hi : h.size ≤ i) : decodeAt h i = (runeError, 0) := by
-  sorry
+  unfold decodeAt decodeAtEnd
+  rw [if_pos hi]
 
 /-- the decoded rune is always a scalar value (ill-formed input yields U+FFFD, itself a scalar value) -/
 theorem decode_scalar (h : Bytes) (i : Nat) (hb : ∀ k, h.at k < 256) : isScalar (decodeAt h i).1 := by
-  sorry
+  have _ := hb  -- not needed: the lead-byte table already bounds every branch
+  unfold decodeAt isScalar maxRune
+  rcases decode_cases h h.size i with ⟨a, e⟩ | ⟨a, b, e⟩ | ⟨a, b, e⟩ | ⟨a, b, b', c, c', e⟩ | ⟨a, b, b', c, c', hE0, hED, d, d', e⟩ |
+    ⟨a, b, b', c, c', hF0, hF4, d, d', f, f', e⟩
+  all_goals rw [e]
+  all_goals simp only [runeError]
+  all_goals omega
 
 /-- a decode of width > 1 consumed exactly the encoding of the rune it reports (well-formed sequence) -/
 theorem decode_wide_is_encoding (h : Bytes) (i : Nat) (hb : ∀ k, h.at k < 256) (hw : 1 < (decodeAt h i).2) :
     (List.range (decodeAt h i).2).map (fun k => h.at (i + k)) = encode (decodeAt h i).1 := by
-  sorry
+  have _ := hb  -- not needed: the accept ranges already bound the consumed bytes
+  unfold decodeAt at hw ⊢
+  rcases decode_cases h h.size i with ⟨a, e⟩ | ⟨a, b, e⟩ | ⟨a, b, e⟩ | ⟨a, b, b', c, c', e⟩ | ⟨a, b, b', c, c', hE0, hED, d, d', e⟩ |
+    ⟨a, b, b', c, c', hF0, hF4, d, d', f, f', e⟩
+  all_goals rw [e] at hw ⊢
+  all_goals simp only [] at hw ⊢
+  · omega
+  · omega
+  · omega
+  · have r2 : List.range 2 = [0, 1] := by decide
+    rw [r2]
+    unfold encode
+    rw [if_neg (by omega), if_pos (by omega)]
+    simp only [List.map, Nat.add_zero]
+    congr 1
+    · omega
+    · congr 1; omega
+  · have r3 : List.range 3 = [0, 1, 2] := by decide
+    rw [r3]
+    unfold encode
+    rw [if_neg (by omega), if_neg (by omega), if_neg (by unfold maxRune; omega), if_pos (by omega)]
+    simp only [List.map, Nat.add_zero]
+    congr 1
+    · omega
+    · congr 1
+      · omega
+      · congr 1; omega
+  · have r4 : List.range 4 = [0, 1, 2, 3] := by decide
+    rw [r4]
+    unfold encode
+    rw [if_neg (by omega), if_neg (by omega), if_neg (by unfold maxRune; omega), if_neg (by omega)]
+    simp only [List.map, Nat.add_zero]
+    congr 1
+    · omega
+    · congr 1
+      · omega
+      · congr 1
+        · omega
+        · congr 1; omega
 
 /-- Go's rule for ill-formed input: width 1 and U+FFFD — unless the byte is ASCII -/
 theorem decode_width_one (h : Bytes) (i : Nat) (hi : i < h.size) (hw : (decodeAt h i).2 = 1) :
     (h.at i < 128 ∧ (decodeAt h i).1 = h.at i) ∨ (128 ≤ h.at i ∧ (decodeAt h i).1 = runeError) := by
-  sorry
+  have _ := hi  -- not needed: at/after the end the width is 0, contradicting `hw`
+  unfold decodeAt at hw ⊢
+  rcases decode_cases h h.size i with ⟨a, e⟩ | ⟨a, b, e⟩ | ⟨a, b, e⟩ | ⟨a, b, b', c, c', e⟩ | ⟨a, b, b', c, c', hE0, hED, d, d', e⟩ |
+    ⟨a, b, b', c, c', hF0, hF4, d, d', f, f', e⟩
+  all_goals rw [e] at hw ⊢
+  all_goals simp only [] at hw ⊢
+  · omega
+  · exact Or.inl ⟨b, trivial⟩
+  · exact Or.inr ⟨b, trivial⟩
+  all_goals omega
 
 end Cx.Utf8
